@@ -108,7 +108,7 @@ def check_names(idx: Index, rep: Report) -> None:
 
     def scheme(q: str, table: str, int_names: set[str]):
         fi = idx.func(PRINTER, q)
-        methods = {nm: d[0].raw_node for nm, d in fi.cls.methods.items()} if fi.cls is not None else {}
+        methods = {nm: d[0].as_raw().node for nm, d in fi.cls.methods.items()} if fi.cls is not None else {}
         sl = StrLang(fi.node, CFG(fi.node), methods, int_names)
         alts = []
         for st in walk_local(fi.node):
